@@ -47,7 +47,7 @@ def convert(lines):
                 'q': [[QSTATE.match(s).group(1), n, w] for s, n, w in r['q']],
                 'sch': r['sch'], 'thr': list(r['thr']), 'max': r['max'],
                 'st': sorted(started), 'en': sorted(ended), 'rt': [[k, rets[k]] for k in sorted(rets)],
-                'obs': [[k, a, b] for k, a, b in r['obs']], 'fin': bool(r['fin']),
+                'obs': [[k, a, b] for k, a, b in r['obs']], 'fin': bool(r['fin']), 'tb': r['op'] in ('wait', 'join') or (r['op'] == 'park' and r['loc'].startswith('job_queue')),
             })
     return out
 
@@ -69,9 +69,9 @@ ProcStep(p) == %(procstep)s
 Tag(e) == IF e.op = "lock" THEN e.cls ELSE e.op
 ThrChars == [i \\in 1..Len(pthreads) |-> IF busyLocked[pthreads[i]] THEN "L" ELSE IF busy[pthreads[i]] THEN "B" ELSE "I"]
 SeqToSet(s) == {s[i] : i \\in 1..Len(s)}
-Match(e) == /\\ \\A o \\in Objs : e.q[o][1] = qstate[o] /\\ e.q[o][2] = Len(jobs[o]) /\\ e.q[o][3] = Cardinality(wakeBlocked[o])
+Match(e) == /\\ \\A o \\in Objs : e.q[o][1] = qstate[o] /\\ e.q[o][2] = Len(jobs[o]) /\\ e.q[o][3] = Len(wakeBlocked[o])
              /\\ e.sch = schedule
-             /\\ e.thr = ThrChars
+             /\\ e.thr = (IF thrHeld # "" THEN <<"?">> ELSE ThrChars)
              /\\ e.max = maxThreads
              /\\ SeqToSet(e.st) = {op \\in Ops : h.scnt[op] > 0}
              /\\ SeqToSet(e.en) = h.ended
@@ -107,5 +107,60 @@ Report == /\\ PrintT(<<"ACCEPTED", TLCGet(1)>>)
 ====
 ''' % {'name': name, 'consts': scen.mc_constants(scn, fixes), 'silent': ', '.join('"%s"' % s for s in silent), 'allowed': allowed, 'procstep': procstep}
     cfg = 'SPECIFICATION TraceSpec\n' + scen.CONST_CFG + 'CONSTRAINT Collect\nPOSTCONDITION Report\nCHECK_DEADLOCK FALSE\n'
+    open(os.path.join(outdir, name + '.tla'), 'w').write(tla)
+    open(os.path.join(outdir, name + '.cfg'), 'w').write(cfg)
+
+
+def write_obs_trace(scn, fixes, outdir, name='OT'):
+    """Monitor-only module: drives DesyncObs with the recorded observable events (no implementation model involved)"""
+    tla = '''---- MODULE %(name)s ----
+EXTENDS DesyncObs, Json, IOUtils, TLCExt
+%(consts)s
+Rec == ndJsonDeserialize(IOEnv.TRACE)
+VARIABLES h, l
+IsPool(t) == t \\in {%(pool)s}
+Apply1(hh, t, ev) ==
+  LET k == ev[1] a == ev[2] b == ev[3] IN
+  CASE k = "call"     -> ObsCall(hh, t, a)
+    [] k = "ret"      -> ObsRet(hh, t, a, b)
+    [] k = "start"    -> ObsStart(hh, t, a)
+    [] k = "end"      -> ObsEnd(hh, t, a)
+    [] k = "panic"    -> ObsPanic(hh, t, a)
+    [] k = "dropped"  -> ObsDropped(hh, t, a)
+    [] k = "fire"     -> ObsFire(hh, a)
+    [] k = "resolved" -> ObsResolved(hh, t, a, b)
+    [] k = "resume"   -> ObsResume(hh, t, a)
+    [] k = "freed"    -> ObsFreed(hh, a)
+    [] k = "spawn"    -> ObsSpawn(hh, b)
+    [] k = "exit"     -> ObsExit(hh, t, IF IsPool(t) THEN 1 ELSE 0, b)
+    [] k = "setmax"   -> ObsSetMax(hh, a)
+    [] OTHER          -> hh
+RECURSIVE ApplyAll(_, _, _, _)
+ApplyAll(hh, t, evs, i) == IF i > Len(evs) THEN hh ELSE ApplyAll(Apply1(hh, t, evs[i]), t, evs, i + 1)
+StepH(hh, e) == ApplyAll(IF e.op \\in {"wait", "park", "join"} /\\ e.tb THEN ObsBlocked(hh, e.t) ELSE hh, e.t, e.obs, 1)
+QSOf(e) == [o \\in Objs |-> <<e.q[o][1], e.q[o][2]>>]
+OTInit == h = InitH /\\ l \\in {i + 1 : i \\in {j \\in 1..Len(Rec) : Rec[j].kind = "run"}}
+OTNext == /\\ l <= Len(Rec)
+          /\\ \\/ /\\ Rec[l].kind = "step"
+                /\\ h' = StepH(h, Rec[l])
+             \\/ /\\ Rec[l].kind = "end"
+                /\\ h' = (IF Rec[l - 1].kind = "step" THEN ObsQuiescent(h, QSOf(Rec[l - 1]), MC_Single) ELSE h)
+          /\\ l' = l + 1
+OTSpec == OTInit /\\ [][OTNext]_<<h, l>>
+Collect == (h.viol # {} => TLCSet(3, TLCGet(3) \\cup {<<l, h.viol>>})) /\\ TLCSet(2, TLCGet(2) \\cup {l})
+ASSUME TLCSet(2, {}) /\\ TLCSet(3, {})
+Report == PrintT(<<"REACHED", TLCGet(2)>>) /\\ PrintT(<<"VIOLS", TLCGet(3)>>)
+====
+''' % {'name': name, 'consts': scen.mc_constants(scn, fixes), 'pool': ', '.join('"p%d"' % i for i in range(1, 17))}
+    cfg = '''SPECIFICATION OTSpec
+CONSTANTS
+  OpTab <- MC_OpTab
+  NObj <- MC_NObj
+  NGate <- MC_NGate
+  Pool0 <- MC_Pool0
+CONSTRAINT Collect
+POSTCONDITION Report
+CHECK_DEADLOCK FALSE
+'''
     open(os.path.join(outdir, name + '.tla'), 'w').write(tla)
     open(os.path.join(outdir, name + '.cfg'), 'w').write(cfg)
